@@ -55,9 +55,70 @@ def tx_impl(h, name, fields, body, kw):
         return f"raised:{type(e).__name__}"
 
 
+class _Gw:
+    def __init__(self):
+        self.sent = []
+
+    async def send_data(self, data):
+        self.sent.append(bytes(data))
+
+
+def call_jobs(jobs):
+    """the public call path: `await handler.command(name, *args, **kwargs)` with a recording gateway; the call is
+    abandoned once its request has been handed to the gateway.  jobs: (handler, seq, name, args, kwargs) -> hex / raised:X"""
+    import asyncio
+
+    async def main():
+        out = []
+        for h, seq, name, args, kwargs in jobs:
+            gw = _Gw()
+            h._gw = gw
+            h._seq = seq
+            h._awaiting.clear()
+            t = asyncio.ensure_future(h.command(name, *args, **kwargs))
+            for _ in range(3):
+                if gw.sent or t.done():
+                    break
+                await asyncio.sleep(0)
+            t.cancel()
+            try:
+                await t
+                res = None
+            except asyncio.CancelledError:
+                res = None
+            except Exception as e:  # noqa: BLE001
+                res = f"raised:{type(e).__name__}"
+            if res is None:
+                res = hx(gw.sent[0]) if len(gw.sent) == 1 else f"sent:{len(gw.sent)}"
+            out.append(res)
+        return out
+
+    return asyncio.run(main())
+
+
+def tx_args(name, fields, body, kw):
+    """(args, kwargs) for the argument form `kw`, or None"""
+    vals, data = [], body
+    for _, tp, _ in fields:
+        v, data = tp.deserialize(data)
+        vals.append(v)
+    if fields and fields[0][0] == "<single>":
+        st = vals[0]
+        return [getattr(st, f.name) for f in st.fields], {}
+    keys = [k for k, _, _ in fields]
+    if kw == 0:
+        return vals, {}
+    if kw == 1:
+        return [], dict(zip(keys, vals))
+    if kw == 2:
+        return [], dict(reversed(list(zip(keys, vals))))
+    return vals[:1], dict(reversed(list(zip(keys[1:], vals[1:]))))
+
+
 def run(ctx):
     logging.disable(logging.CRITICAL)
     rng = ctx.rng
+    jobs, job_rows = [], []
     rows = []  # (kind, version, name, model line, impl, spec, note)
     reps = ctx.n(2, 12)
     n_pairs = 0
@@ -108,6 +169,14 @@ def run(ctx):
                         else:
                             line = f"c07 tx {v} {seq} {name} {vals}"
                         rows.append(("tx", v, name, line, got, want, f"kw={kw} {vals}"))
+                        try:
+                            a, k = tx_args(name, txf, body, kw)
+                            jobs.append((h, seq, name, a, k))
+                            job_rows.append((v, name, want, f"call kw={kw} {vals}"))
+                        except Exception:  # noqa: BLE001  (the _ezsp_frame row above reports it)
+                            pass
+    for (v, name, want, note), got in zip(job_rows, call_jobs(jobs)):
+        rows.append(("call", v, name, None, got, want, note))
     out = ctx.driver([r[3] for r in rows if r[3]])
     k = 0
     for kind, v, name, line, got, want, note in rows:
@@ -133,7 +202,8 @@ def run(ctx):
     ctx.count("version_command_pairs", n_pairs)
     ctx.cov["rule"] = (f"every (version, command) pair of versions 4..14 ({n_pairs} pairs) x {reps} value tuples per direction (all-zero/empty, maximal, random; optional tail present and absent); "
                        "receive path = real handler __call__ on header + independently encoded payload, decoded values canonicalised by descriptor; transmit path = real _ezsp_frame with positional, keyword, "
-                       "reversed-keyword and mixed argument forms; every case is distinct and non-trivial")
+                       "reversed-keyword and mixed argument forms, and the same argument forms through the public call path (await handler.command(name, ...) with a recording gateway: "
+                       "the bytes handed to send_data); every case is distinct and non-trivial")
     ctx.exhaustive = True
 
 
